@@ -12,7 +12,7 @@ OBLIGATION = "revision_git_object"
 REQUESTS_NEED_IMPL = True
 THEOREMS = ["C03_id_is_commit_hash", "C03_parse_partial", "C03_parse_full_refuted", "C03_manifest_injective",
             "C03_irrelevant_fields", "C03_legacy_extra_headers", "C03_post_init_keeps_manifest", "C03_presence_matrix",
-            "C03_satisfiable"]
+            "C03_satisfiable", "C03_author_date_exact"]
 RULE = ("all 16 presence combinations of author/committer/date/committer_date (7 rejected by the validators) x 0-5 parents "
         "(empty parent ids included) x message {None, empty, arbitrary, trailing newline, blank lines} x 0-4 extra headers "
         "with values {empty, leading space, multi-line, trailing newline, newline+space} and keys mostly well-formed, "
@@ -122,6 +122,17 @@ def impl(c):
            "extra_attr": [[k.hex(), v.hex()] for k, v in r.extra_headers],
            "meta_has_extra": bool(r.metadata and "extra_headers" in r.metadata),
            "compute_hash": r.compute_hash().hex()}
+    try:
+        import warnings
+        with warnings.catch_warnings():
+            warnings.simplefilter("ignore")
+            # deprecated routes: plain dicts instead of model objects
+            res["manifest_from_dict_arg"] = git_objects.revision_git_object(r.to_dict()).hex()
+            if c["date"] is not None:
+                res["format_date_dict"] = git_objects.format_date({"seconds": c["date"][0], "microseconds": c["date"][1]}).hex()
+                res["format_date_obj"] = git_objects.format_date(r.date.timestamp).hex()
+    except Exception as e:
+        res["manifest_from_dict_arg"] = "error:" + exc_class(e)
     for name, kw in (("id_variant", {"variant": 1}), ("id_other_route", {"legacy": not c["legacy"]})):
         try:
             res[name] = _build(c, **kw).id.hex()
@@ -176,6 +187,8 @@ def oracle(c, ires, mres):
     man = bytes.fromhex(ires["manifest"])
     if ires["id"] != hashlib.sha1(man).hexdigest() or ires["compute_hash"] != ires["id"]:
         return "id is not the SHA-1 of the commit object"
+    if ires["manifest_from_dict_arg"] != ires["manifest"] or ires.get("format_date_dict") != ires.get("format_date_obj"):
+        return "revision_git_object(<dict>) / format_date(<dict>) differ from the object routes"
     if ires["id_variant"] != ires["id"]:
         return "type / synthetic / split name+email / other metadata influence the id"
     if ires["id_other_route"] != ires["id"]:
